@@ -37,7 +37,8 @@ theorem case_skipped (n pos : Nat) (v : CellId) (pats : List Expr) (body : Stmt)
   conv => lhs; unfold evalMatchCases
   simp [bind, EM.bind, h]
 
-/-- **first match wins**: when the patterns of a case match, the result of the whole `match`
+/-- **first match wins**: when the patterns of a case match (and the frame stack is within the
+    call-depth limit, `hd`), the result of the whole `match`
     is what the BODY of that case yields in a fresh frame holding the bindings; the remaining
     cases (`rest`) do not occur on the right-hand side: none of their patterns or bodies is
     evaluated, so they contribute neither effects nor faults. -/
@@ -264,6 +265,50 @@ abbrev subjCell (src : Bytes) : CellId := (demoSubject src).1
 abbrev subjState (src : Bytes) : St := (demoSubject src).2
 
 end helpers
+
+/-! ### non-vacuity of the one-step equations of Part 1 (their hypotheses, on the demo programs;
+the evaluator itself at fuel 40, not the specification) -/
+
+section part1
+/-- `case_skipped`: case 0 (`1`) of `match (9) { 1 => "one", [a] => a }` does not match -/
+example : ∃ s1, evalCaseMatch (demoProg srcNone) 40 (subjCell srcNone) (demoAlts srcNone 0)
+    (subjState srcNone) = .ok none s1 := ⟨_, eq_noMatch_of (by decide +kernel)⟩
+/-- `first_match_wins`: the alternatives `[1,x], [2,x]` match `[2,5]`, at frame depth ≤ limit -/
+example : ∃ b, evalCaseMatch (demoProg srcRecord) 40 (subjCell srcRecord) (demoAlts srcRecord 0)
+      (subjState srcRecord) = .ok (some b) (stateOf (evalCaseMatch (demoProg srcRecord) 40
+        (subjCell srcRecord) (demoAlts srcRecord 0) (subjState srcRecord))) ∧
+    (stateOf (evalCaseMatch (demoProg srcRecord) 40 (subjCell srcRecord) (demoAlts srcRecord 0)
+      (subjState srcRecord))).frames.length ≤ callDepthLimit := by
+  obtain ⟨b, h⟩ := eq_match_of (r := evalCaseMatch (demoProg srcRecord) 40 (subjCell srcRecord)
+    (demoAlts srcRecord 0) (subjState srcRecord)) (by decide +kernel)
+  exact ⟨b, h, by decide +kernel⟩
+/-- `case_pattern_error`: the unsupported pattern `f(1)` of `srcCases`, tested directly -/
+example : ∃ s1, evalCaseMatch (demoProg srcCases) 40 (subjCell srcCases) (demoAlts srcCases 2)
+    (subjState srcCases) = .err (.runtime 52 "not supported in match expressions") s1 :=
+  ⟨_, eq_err_of (by decide +kernel)⟩
+/-- `literal_pattern`: the literal `2` of `srcBlock` evaluates to a cell holding a number -/
+example : (∃ lc, evalExpr (demoProg srcBlock) 39 (.lit ⟨.num, 38, b!"2"⟩) (subjState srcBlock)
+      = .ok lc (stateOf (evalExpr (demoProg srcBlock) 39 (.lit ⟨.num, 38, b!"2"⟩) (subjState srcBlock)))) ∧
+    (valueOf (evalExpr (demoProg srcBlock) 39 (.lit ⟨.num, 38, b!"2"⟩) (subjState srcBlock))).map Val.kind
+      = some .num :=
+  ⟨eq_ok_of (by decide +kernel), by decide +kernel⟩
+/-- `array_pattern_non_array`: the subject `9` of `srcNone` is not an array -/
+example : ∀ a, (subjState srcNone).heap.get (subjCell srcNone) ≠ .arr a := by
+  intro a h
+  have : (match (subjState srcNone).heap.get (subjCell srcNone) with | .arr _ => true | _ => false)
+      = false := by decide +kernel
+  rw [h] at this; cases this
+/-- `array_pattern_length`: `[1,2,3]` against the two-element pattern `[a,b]` -/
+def srcLen : Bytes := b!"BEGIN { print match ([1,2,3]) { [a,b] => \"two\", z => \"other\" } }"
+example : (subjState srcLen).heap.get (subjCell srcLen) = .arr 0 ∧
+    ((subjState srcLen).heap.arr 0).toList.length = 3 ∧
+    (match (demoAlts srcLen 0)[0]! with | .arr _ items => items.length | _ => 0) = 2 := by
+  decide +kernel
+/-- `binding_visible`: the start state has a frame; `bindings_scoped`: the case loop ends -/
+example : (demoStart srcRecord).frames.length = 1 ∧
+    (C08.finalState (evalMatchCases (demoProg srcRecord) 40 0 (subjCell srcRecord)
+      (demoCases srcRecord) (subjState srcRecord))).isSome = true := by decide +kernel
+end part1
 
 section whole
 open Jqawk.Spec Jqawk.MatchSpec
